@@ -83,6 +83,21 @@ func check(sub string) func(t h.TB, c Case) {
 		if bytes.Equal(out.Bytes(), ref) {
 			return
 		}
+		if known.GenericAlias(ref) {
+			// open finding KF-3: decorations next to the '=' / type parameter list of a generic
+			// type alias are emitted on the wrong side of the list; a multi-line comment moved
+			// there can even make the output unparseable. Only "no panic, no error" is demanded.
+			h.KnownHit("KF-3")
+			return
+		}
+		if known.InlineCommentGroup(ref) || known.InlineCommentGroup(in) {
+			// open finding KF-4: go/printer holds back comment groups that contain a newline but
+			// flushes single comments; the restorer makes every comment its own group, so members
+			// of such a group end up on the other side of a token go/printer positions itself
+			// (',' ']' ...), where a line break can even split the statement.
+			h.KnownHit("KF-4")
+			return
+		}
 		tr, cr, _ := oracle.Scan(ref)
 		to, co, ok := oracle.Scan(out.Bytes())
 		if !ok {
@@ -123,6 +138,16 @@ func check(sub string) func(t h.TB, c Case) {
 	}
 }
 
+func hasBuildLine(src []byte) bool {
+	for _, ln := range strings.Split(string(src), "\n") {
+		ln = strings.TrimSpace(ln)
+		if strings.HasPrefix(ln, "//go:build") || strings.HasPrefix(ln, "// +build") || strings.HasPrefix(ln, "//+build") {
+			return true
+		}
+	}
+	return false
+}
+
 func base(t *rapid.T) ([]byte, string, bool) {
 	if rapid.IntRange(0, 2).Draw(t, "src") == 0 {
 		p, b := gen.CorpusFile(t)
@@ -160,7 +185,7 @@ func genCase(sub string, kf5 bool) func(t *rapid.T) (Case, bool) {
 				ops = append(ops, "gofmt")
 			}
 		}
-		src, ik := gen.Inject(t, b, gen.LayoutOpts{Max: 12, Special: rapid.IntRange(0, 3).Draw(t, "special") == 0})
+		src, ik := gen.Inject(t, b, gen.LayoutOpts{Max: 12, NoBuildTags: true, Special: rapid.IntRange(0, 3).Draw(t, "special") == 0})
 		ops = append(ops, ik...)
 		if oracle.CommentInImportBlock(src) {
 			// go/format sorts parenthesised import declarations and moves comments inside them
@@ -188,6 +213,12 @@ func genCase(sub string, kf5 bool) func(t *rapid.T) (Case, bool) {
 		}
 		if !fix {
 			h.Exclude("gofmt not idempotent on this text")
+			return Case{}, false
+		}
+		if hasBuildLine(src) {
+			// go/printer regenerates, moves and deletes //go:build and // +build lines on its
+			// own (fixGoBuildLines), depending on what the header looks like
+			h.Exclude("build-constraint lines (go/printer rewrites them itself)")
 			return Case{}, false
 		}
 		if !kf5 && gen.InKF5Class(src) {
@@ -262,6 +293,7 @@ func flattenSorted(cs []string) string {
 		}
 		for _, ln := range strings.Split(c, "\n") {
 			ln = strings.Join(strings.Fields(ln), "")
+			ln = strings.NewReplacer("``", "\u201c", "''", "\u201d").Replace(ln) // the doc formatter curls these quotes
 			ln = strings.TrimLeft(ln, "#")
 			ln = strings.TrimLeft(ln, "-*+•")
 			ln = strings.TrimLeft(ln, "0123456789")
@@ -297,8 +329,8 @@ func TestReplay(t *testing.T) {
 		if _, _, err := oracle.Parse(src); err != nil {
 			continue
 		}
-		if gen.InKF5Class(src) {
-			h.Exclude("KF-5 class corpus file")
+		if gen.InKF5Class(src) || hasBuildLine(src) {
+			h.Exclude("KF-5 class / build-constraint corpus file")
 			continue
 		}
 		if _, fix, _ := oracle.Canon(src); !fix {
@@ -334,7 +366,7 @@ func FuzzTokens(f *testing.F) {
 		if _, _, err := oracle.Parse(data); err != nil {
 			return
 		}
-		if _, fix, err := oracle.Canon(data); err != nil || !fix || gen.InKF5Class(data) {
+		if _, fix, err := oracle.Canon(data); err != nil || !fix || gen.InKF5Class(data) || hasBuildLine(data) {
 			return
 		}
 		h.Eval("Fuzz")
